@@ -45,7 +45,8 @@ func statefulEntries() []*entry {
 		gatedDHCPv4Entry(),
 		gatedDHCPv6Entry(),
 		gatedCoAEntry(),
-		gatedHAEntry(),
+		gatedHAEntry("gated:ha.HASyncer.handleSSEData", "ha.HASyncer.handleSSEData", "standby-synced"),
+		gatedHAEntry("gated:ha.HASyncer.connectToStream", "ha.HASyncer.connectToStream", "stream-attached"),
 	}
 }
 
@@ -612,19 +613,23 @@ func (g *gatedFSM) Feed(in []byte) outcome {
 
 func (g *gatedFSM) Close() {}
 
-var gatedFSMKeyStates = map[string]bool{"Req-Sent": true, "Ack-Rcvd": true, "Ack-Sent": true, "Opened": true}
+// The code in front of a handler's state switch (identifier gate, option parsing) is the same in
+// every state, so the quick tier runs the whole systematic list in two states (a request
+// outstanding; opened) and a third of it (any prefix of the shuffled list is a fair sample) in the
+// other eight; the thorough tier runs all of it everywhere.
+var gatedFSMKeyStates = map[string]bool{"Req-Sent": true, "Opened": true}
 
 func gatedFSMEntry(name, comp, proto string, goodReq func(uint8) []byte) *entry {
 	p := cpProtoFor(proto)
 	quota := func(state string, thorough bool) int {
 		n := len(cpSys(p))
-		if gatedFSMKeyStates[state] { // an outstanding or acknowledged request: the whole systematic list, then seeded packets
-			n += 400
+		if gatedFSMKeyStates[state] {
+			n += 300
 		} else {
-			n = n/3 + 200
+			n = n/3 + 150
 		}
 		if thorough {
-			n = len(cpSys(p)) + 12000
+			n = len(cpSys(p)) + 7000
 		}
 		return n
 	}
@@ -636,7 +641,7 @@ func gatedFSMEntry(name, comp, proto string, goodReq func(uint8) []byte) *entry 
 		return t
 	}
 	return &entry{
-		name: name, comp: comp, states: fsmStates, quick: total(false), thorough: total(true), chunk: 1 << 20, cost: 4,
+		name: name, comp: comp, states: fsmStates, totalFn: total, chunk: 1 << 20, cost: 4,
 		quota:     quota,
 		gateFloor: func(thorough bool) int { return total(thorough) / 4 },
 		open: func(state string, ev *env) (runner, error) {
@@ -911,6 +916,8 @@ func gatedAuthEntry() *entry {
 		chap := len(state) > 4 && state[:4] == "chap"
 		n := len(authSys(chap)) + 300
 		switch state {
+		case "pap-success", "chap-success":
+			n = n/2 + 100
 		case "pap-failed", "chap-failed": // every case costs RADIUS exchanges over loopback
 			n = 500
 		case "pap-rate-limited", "chap-rate-limited":
@@ -929,7 +936,7 @@ func gatedAuthEntry() *entry {
 		return t
 	}
 	return &entry{
-		name: name, comp: "pppoe.Authenticator.ReceivePacket", states: gatedAuthStates, quick: total(false), thorough: total(true), chunk: 1 << 20, cost: 6,
+		name: name, comp: "pppoe.Authenticator.ReceivePacket", states: gatedAuthStates, totalFn: total, chunk: 1 << 20, cost: 6,
 		quota:     quota,
 		gateFloor: func(thorough bool) int { return total(thorough) / 5 },
 		open: func(state string, ev *env) (runner, error) {
@@ -1105,6 +1112,11 @@ func (g *gatedPPPoE) ensure() error {
 			return nil
 		}
 	}
+	if g.mac != nil && l.srv.VerifC09SessionState(g.sid) != "" { // the previous session has moved on: its owner ends it
+		if m := l.srv.VerifC09SessionMAC(g.sid); m != nil && m.String() == g.mac.String() {
+			l.push(discFrame(g.mac, pppoe.CodePADT, g.sid, nil))
+		}
+	}
 	mac := l.clientMAC()
 	out := l.push(discFrame(mac, pppoe.CodePADI, 0, []pppoe.Tag{{Type: pppoe.TagServiceName}, {Type: pppoe.TagHostUniq, Value: []byte{1, 2, 3, 4}}}))
 	var cookie []byte
@@ -1270,12 +1282,12 @@ func gatedPPPoEEntry() *entry {
 	per := func(thorough bool) int {
 		n := len(gatedPPPoESys())
 		if thorough {
-			return n + 20000
+			return n + 12000
 		}
-		return n/2 + 300
+		return n/3 + 300
 	}
 	return &entry{
-		name: name, comp: "pppoe.Server.receiveLoop", states: gatedPhases, quick: 4 * per(false), thorough: 4 * per(true), chunk: 1 << 20, cost: 12,
+		name: name, comp: "pppoe.Server.receiveLoop", states: gatedPhases, totalFn: func(t bool) int { return 4 * per(t) }, chunk: 4000, cost: 12,
 		quota:     func(state string, thorough bool) int { return per(thorough) },
 		gateFloor: func(thorough bool) int { return per(thorough) / 2 },
 		open: func(state string, ev *env) (runner, error) {
